@@ -2,7 +2,7 @@ SPECIFICATION SpecDeep
 CONSTANTS
   Day = 8
   Gaps <- GapsDeep
-  Horizon = 80
+  Horizon = 64
   GenLen = 0
 VIEW ViewDeep
 INVARIANTS TypeOK HistBelow CurrentPresent
